@@ -148,6 +148,7 @@ Decl_C18(pre, ev, post) ==
     [] ev.op = "tbc" ->
          /\ Frame(pre, post, {"tabs"})
          /\ post.tabs = (CASE N0(P(ev, 1)) = 0 -> pre.tabs \ {pre.x} [] N0(P(ev, 1)) = 3 -> {} [] OTHER -> pre.tabs)
+    [] ev.op = "ris" -> post.tabs = { t \in 1..(pre.C - 1) : t % 8 = 0 }      \* "initially and after reset"
 
 -----------------------------------------------------------------------------
 (* C08: SGR read attribute by attribute.  Active(ps) = the positions that    *)
